@@ -680,3 +680,124 @@ Proof.
   - f_equal. lia.
   - apply in_seq. lia.
 Qed.
+
+(* ---------------------------------------------------------------- what VRF a pool ends up with *)
+(* the VRF the configuration gives pool key k of family f: the last non-empty VRF written for that key
+   by a pool list of the SAME family *)
+Definition cfg_vrf_pool (f : rfam) (k : key) (g : rfam) (pfname : N) (acc : N) (p : rpool) : N :=
+  if rfam_eqb g f && key_eqb (pfname, rp_name p) k && negb (N.eqb (rp_vrf p) 0) then rp_vrf p else acc.
+Definition cfg_vrf_profile (f : rfam) (k : key) (acc : N) (pf : rprofile) : N :=
+  fold_left (cfg_vrf_pool f k (rf_fam pf) (rf_name pf)) (rf_pools pf) acc.
+Definition cfg_vrf (f : rfam) (k : key) (pfs : list rprofile) : N := fold_left (cfg_vrf_profile f k) pfs 0.
+
+Lemma vrfs_set_allocs st f m : r_vrfs (set_allocs st f m) = r_vrfs st.
+Proof. destruct f; reflexivity. Qed.
+Lemma vrfs_set_lists st f l : r_vrfs (set_lists st f l) = r_vrfs st.
+Proof. destruct f; reflexivity. Qed.
+
+Lemma init_pool_vrf g pf st p f k :
+  vrf_of Repaired (init_pool Repaired g pf st p) f k = cfg_vrf_pool f k g pf (vrf_of Repaired st f k) p.
+Proof.
+  unfold init_pool, vrf_of, cfg_vrf_pool.
+  set (s1 := if rp_vrf p =? 0 then st else _).
+  assert (E2 : forall s, r_vrfs (match assoc_find key_eqb (pf, rp_name p) (r_allocs s g) with
+                                  | Some _ => s
+                                  | None => match rp_cfg p with
+                                            | Some c => set_allocs s g (r_allocs s g ++ [((pf, rp_name p), (c, pool_init (acfg_pool c)))])
+                                            | None => s end end) = r_vrfs s).
+  { intros s. destruct (assoc_find key_eqb (pf, rp_name p) (r_allocs s g)); [reflexivity|].
+    destruct (rp_cfg p); [|reflexivity]. apply vrfs_set_allocs. }
+  rewrite E2. unfold s1. destruct (N.eqb_spec (rp_vrf p) 0) as [Z|NZ].
+  - rewrite andb_false_r. reflexivity.
+  - rewrite andb_true_r. simpl r_vrfs. unfold vkey; simpl shared_vrf. cbv iota.
+    destruct (rfam_eqb g f && key_eqb (pf, rp_name p) k) eqn:E.
+    + apply andb_true_iff in E. destruct E as [E1 E3]. apply rfam_eqb_eq in E1. apply key_eqb_eq in E3. subst.
+      rewrite assoc_find_set_same; [reflexivity|]. intros a. apply vkey_eqb_eq. reflexivity.
+    + rewrite assoc_find_set_other; [reflexivity | apply vkey_eqb_eq |].
+      intros Q. inversion Q; subst. rewrite (proj2 (rfam_eqb_eq g g) eq_refl) in E.
+      rewrite (proj2 (key_eqb_eq _ _) eq_refl) in E. discriminate.
+Qed.
+
+Lemma init_profile_vrf st pf f k :
+  vrf_of Repaired (init_profile Repaired st pf) f k = cfg_vrf_profile f k (vrf_of Repaired st f k) pf.
+Proof.
+  unfold init_profile, cfg_vrf_profile.
+  set (st1 := set_lists st _ _).
+  assert (E : vrf_of Repaired st1 f k = vrf_of Repaired st f k) by (unfold vrf_of, st1; rewrite vrfs_set_lists; reflexivity).
+  rewrite <- E. clear E. generalize st1. induction (rf_pools pf) as [|p r IH]; intros s; simpl; [reflexivity|].
+  rewrite IH, init_pool_vrf. reflexivity.
+Qed.
+
+(* after registry construction, the VRF of every pool is what the configuration of ITS family says *)
+Lemma reg_init_vrf pfs f k : vrf_of Repaired (reg_init Repaired pfs) f k = cfg_vrf f k pfs.
+Proof.
+  unfold reg_init, cfg_vrf.
+  assert (G : forall l st, vrf_of Repaired (fold_left (init_profile Repaired) l st) f k =
+                           fold_left (cfg_vrf_profile f k) l (vrf_of Repaired st f k)).
+  { induction l as [|p r IH]; intros st; simpl; [reflexivity|]. rewrite IH, init_profile_vrf. reflexivity. }
+  rewrite G. reflexivity.
+Qed.
+
+Lemma vrfs_step v st k st' o : reg_step v st k = Some (st', o) -> r_vrfs st' = r_vrfs st.
+Proof.
+  intros H.
+  assert (OP : forall f k mk s1 o1, on_pool v st f k mk = Some (s1, o1) -> r_vrfs s1 = r_vrfs st).
+  { unfold on_pool. intros f k0 mk s1 o1 H0.
+    destruct (assoc_find key_eqb k0 (r_allocs st f)) as [[ac ps]|]; [|discriminate].
+    destruct (mk ac); [|discriminate].
+    destruct (pool_step v (acfg_pool ac) ps c) as [[ps' o']|]; [|discriminate].
+    inversion H0; subst. apply vrfs_set_allocs. }
+  assert (WK : forall f x obs mk s1 o1, walk v st f x obs mk = Some (s1, o1) -> r_vrfs s1 = r_vrfs st).
+  { unfold walk. intros f x obs mk s1 o1 H0. destruct obs as [k0|].
+    - destruct (assoc_find key_eqb k0 (r_allocs st f)) as [[ac ps]|]; [|discriminate].
+      destruct (acontains v ac x); [|discriminate].
+      destruct (on_pool v st f k0 mk) as [[s2 o2]|] eqn:E; [|discriminate].
+      inversion H0; subst. eapply OP; eauto.
+    - destruct (existsb _ _); inversion H0; subst; reflexivity. }
+  destruct k as [f pf ov vrf s obs | f k x | f k x s obs | f x s obs | f k x obs | f x obs | b | f k | f pf].
+  - cbn [reg_step] in H.
+    destruct (alloc_target v st f pf ov vrf) as [t|]; destruct obs as [[k' a]|]; try discriminate.
+    + destruct (key_eqb t k'); [|discriminate].
+      destruct (on_pool v st f t (mk_alloc v s a)) as [[st1 o1]|] eqn:E; [|discriminate].
+      inversion H; subst. eapply OP; eauto.
+    + inversion H; subst; reflexivity.
+  - cbn [reg_step] in H.
+    destruct (on_pool v st f k (mk_release v x)) as [[st1 o1]|] eqn:E; inversion H; subst; [|reflexivity].
+    eapply OP; eauto.
+  - cbn [reg_step] in H. destruct (assoc_find key_eqb k (r_allocs st f)).
+    + destruct (on_pool v st f k (mk_reserve v x s)) as [[st1 o1]|] eqn:E; [|discriminate].
+      inversion H; subst. eapply OP; eauto.
+    + eapply WK; eauto.
+  - cbn [reg_step] in H. eapply WK; eauto.
+  - cbn [reg_step] in H. destruct (assoc_find key_eqb k (r_allocs st f)).
+    + destruct (on_pool v st f k (mk_release v x)) as [[st1 o1]|] eqn:E; [|discriminate].
+      inversion H; subst. eapply OP; eauto.
+    + eapply WK; eauto.
+  - destruct f.
+    + change (Some (map_pools v st F4 (mk_release v x), ROOk) = Some (st', o)) in H.
+      apply some_pair_inj in H. destruct H as [<- _]. apply vrfs_set_allocs.
+    + change (Some (map_pools v st FNA (mk_release v x), ROOk) = Some (st', o)) in H.
+      apply some_pair_inj in H. destruct H as [<- _]. apply vrfs_set_allocs.
+    + change (walk v st FPD x obs (mk_release v x) = Some (st', o)) in H. eapply WK; eauto.
+  - change (Some (map_pools v (map_pools v (map_pools v st F4 (fun _ => Some (CSetDir b)))
+                                           FNA (fun _ => Some (CSetDir b)))
+                      FPD (fun _ => Some (CSetDir b)), ROOk) = Some (st', o)) in H.
+    apply some_pair_inj in H. destruct H as [<- _]. unfold map_pools. rewrite !vrfs_set_allocs. reflexivity.
+  - cbn [reg_step] in H. destruct (assoc_find key_eqb k (r_allocs st f)) as [[c ps]|]; inversion H; subst; reflexivity.
+  - cbn [reg_step] in H. inversion H; subst; reflexivity.
+Qed.
+
+Lemma vrf_run v : forall ks st st' evs, reg_run_from v st ks = Some (st', evs) -> r_vrfs st' = r_vrfs st.
+Proof.
+  induction ks as [|k r IH]; simpl; intros st st' evs H.
+  - inversion H; subst; reflexivity.
+  - destruct (reg_step v st k) as [[st1 o]|] eqn:E; [|discriminate].
+    destruct (reg_run_from v st1 r) as [[st2 evs']|] eqn:R; [|discriminate].
+    inversion H; subst. rewrite (IH _ _ _ R). eapply vrfs_step; eauto.
+Qed.
+
+Lemma reachable_vrf pfs ks st evs f k :
+  reg_run_from Repaired (reg_init Repaired pfs) ks = Some (st, evs) -> vrf_of Repaired st f k = cfg_vrf f k pfs.
+Proof.
+  intros H. rewrite <- reg_init_vrf. unfold vrf_of. rewrite (vrf_run _ _ _ _ _ H). reflexivity.
+Qed.
